@@ -26,6 +26,8 @@ man = {
  },
  "engines": [
    {"name": "lsx", "path": "harness/", "serves_properties": [p for p in CHECKS if p not in ("C18","C19")], "kind_free_text": "lock-step explicit-state explorer (SWEEP / REACH / CONFIG modes) calling the real volute code next to reference models; Rust, 16 worker threads"},
+   {"name": "lsx-env", "path": "harness-rng/ (+ shim/rand, harness/src/props/c19.rs)", "serves_properties": [p for p in CHECKS if p == "C19"], "kind_free_text": "ENV-mode explorer: volute built against a scripted rand; enumerates answer streams with bounded deviations"},
+   {"name": "lsx-mip", "path": "harness-mip/", "serves_properties": [p for p in CHECKS if p == "C18"], "kind_free_text": "explorer built with feature optim-mip; oracle = exhaustive shortest-path search over all cubes (TwoLevelOpt)"},
  ],
  "checks": [],
  "not_applicable": [],
